@@ -132,6 +132,9 @@ func (e *Env) postFunc(n *Node, idx int, ps PostSpec) z.PostTransform {
 			if ps.Behaviour == "error" {
 				return &PostError{n.ID, idx}
 			}
+			if ps.Behaviour == "ctxissue" {
+				ctx.AddIssue(ctx.Issue().SetCode("post_ctx").SetMessage(fmt.Sprintf("post-ctx n%d#%d", n.ID, idx)))
+			}
 			return nil
 		}
 		ev := Event{Kind: "post", Node: n.ID, Idx: idx, Ctx: e.ctxVals(ctx)}
@@ -147,6 +150,12 @@ func (e *Env) postFunc(n *Node, idx int, ps PostSpec) z.PostTransform {
 		case "issue":
 			iss := &z.ZogIssue{Code: "post_issue", Message: fmt.Sprintf("post-issue n%d#%d", n.ID, idx), Path: "post.path"}
 			ret = iss
+		case "ctxissue":
+			// reports through the context instead of returning an error: ctx.Issue() is prefilled with this node's path
+			ctx.AddIssue(ctx.Issue().SetCode("post_ctx").SetMessage(fmt.Sprintf("post-ctx n%d#%d", n.ID, idx)))
+		case "issue-nopath":
+			// a hand-built issue that names no path: reported as it is (the map files it under $root)
+			ret = &z.ZogIssue{Code: "post_issue", Message: fmt.Sprintf("post-issue n%d#%d", n.ID, idx)}
 		case "wrapped":
 			// an ordinary error that happens to carry an issue in its chain (a callback that re-validated part of
 			// its value with another schema and wrapped what it got): it is the returned error that is reported
